@@ -25,9 +25,15 @@ Restricted grammar
 Anything else -> OutOfGrammar with the offending text; the files then hold the REFERENCE kernels (= the hand model), the
 status `translator-out-of-grammar` is returned (CLI exit code 2) and recorded in the evidence by lib/vf/props/C07.py.
 
+Consume-everything (translate/strict.py, DESIGN §9.4): `account_loop` matches the body of the outer loop statement by statement (the
+translated expressions are wild cards there, every other statement is fixed text incl. the print block and the two result blocks);
+every member of the Stats structs is a field of a known form.
+
 Usage: gen_C07_alm.py [repo] [outdir]"""
 import os, re, sys, unicodedata
 from fractions import Fraction
+sys.path.insert(0, os.path.dirname(os.path.abspath(__file__)))
+import strict
 
 HERE = os.path.dirname(os.path.abspath(__file__))
 VERIF = os.path.dirname(HERE)
@@ -466,6 +472,70 @@ def gen_helpers(repo, D):
     D.append(("g_initial_sigma_auto", "(P : alm_params (T:=T)) (f0 : T) (g0 : list T) : T", pre + last[2], "initialize_penalty: Σ.setConstant(<this>)"))
 
 
+def accounted(text, forms, what):
+    try:
+        return strict.account(strict.split_statements(text), forms, what)
+    except strict.Unaccounted as ex:
+        raise OutOfGrammar(str(ex))
+
+
+K = strict.lit          # a statement the translator knows and does not translate: it must be there, exactly like this, in this place
+
+
+PRINT_BLOCK = r'''const char *color = inner_converged ? "\x1b[0;32m" : "\x1b[0;31m"; const char *color_end = "\x1b[0m";
+ *os << "[\x1b[0;34mALM\x1b[0m]   " << std::setw(5) << i << ": ‖Σ‖ = " << print_real(Σ_curr.norm()) << ", ‖y‖ = " << print_real(y.norm())
+ << ", δ = " << print_real(norm_e) << ", ε = " << print_real(ps.ε) << ", status = " << color << std::setw(13) << ps.status << color_end
+ << ", iter = " << std::setw(13) << ps.iterations << std::endl;'''
+
+
+def account_loop(loop):
+    """consume-everything: the body of the outer loop is exactly this statement sequence (the translated expressions are `.*`
+    here and are parsed by gen_alm; everything else is fixed text).  Returns the matches."""
+    result_block = [("s.ε", K("s.ε = ps.ε;"), "1"), ("s.δ", K("s.δ = norm_e;"), "1"),
+                    ("s.norm_penalty", K("s.norm_penalty = Σ_curr.norm() / std::sqrt(real_t(m));"), "1"),
+                    ("s.outer_iterations", K("s.outer_iterations = i + 1;"), "1"),
+                    ("s.elapsed_time", K("s.elapsed_time = duration_cast<nanoseconds>(time_elapsed);"), "1"),
+                    ("s.status", r"s\.status\s*=\s*[^;]+;", "1"), ("hand back Σ", K("if (Σ) *Σ = Σ_curr;"), "1"), ("return", K("return s;"), "1")]
+    r = accounted(loop, [
+        ("eval_proj_multipliers", r"p\.eval_proj_multipliers\(\s*y\s*,[^;]*\);", "1"),
+        ("out_of_iter", r"bool\s+out_of_iter\s*=[^;]+;", "1"),
+        ("time_elapsed", K("auto time_elapsed = std::chrono::steady_clock::now() - start_time;"), "1"),
+        ("time_remaining", r"auto\s+time_remaining\s*=[^;]+;", "1"),
+        ("opts", r"InnerSolveOptions<config_t>\s+opts\s*\{.*\};", "1"),
+        ("inner solve", K("auto ps = inner_solver(p, opts, x, y, Σ_curr, error);"), "1"),
+        ("inner_converged", r"bool\s+inner_converged\s*=[^;]+;", "1"),
+        ("failure counter", r"s\.inner_convergence_failures\s*\+=[^;]+;", "1"),
+        ("s.inner += ps", K("s.inner += ps;"), "1"),
+        ("using norm_inf", K("using vec_util::norm_inf;"), "1"),
+        ("norm_e", r"norm_e\s*=[^;=][^;]*;", "1"),
+        ("time_elapsed update", K("time_elapsed = std::chrono::steady_clock::now() - start_time;"), "1"),
+        ("out_of_time", r"bool\s+out_of_time\s*=[^;]+;", "1"),
+        ("print block", r"if\s*\(\s*" + K("params.print_interval != 0 && i % params.print_interval == 0") + r"\s*\)\s*\{.*\}", "1"),
+        ("Interrupted block", r"if\s*\([^{}]*\)\s*\{.*\}", "1"),
+        ("alm_converged", r"bool\s+alm_converged\s*=[^;]+;", "1"),
+        ("interrupted", r"bool\s+interrupted\s*=[^;]+;", "1"),
+        ("exit", r"bool\s+exit\s*=[^;]+;", "1"),
+        ("exit block", r"if\s*\(\s*exit\s*\)\s*\{.*\}", "1"),
+        ("update_penalty_weights", r"Helpers::update_penalty_weights\([^;]*\);", "1"),
+        ("ε update", r"ε\s*=[^;=][^;]*;", "1"),
+        ("norm_e_old", K("norm_e_old = norm_e;"), "1"),
+        ("error swap", K("error.swap(error_old);"), "1"),
+    ], "outer loop of ALMSolver::operator()")
+    try:
+        # printing only (two local string constants and one output statement): not translated, its text is known
+        pb = strict.control(r["print block"].group(0), "if")
+        if pb[2] is not None or "".join(pb[1].split()) != "".join(PRINT_BLOCK.split()):
+            raise OutOfGrammar("print block of the outer loop differs from the known text")
+        for blk in ("Interrupted block", "exit block"):
+            c = strict.control(r[blk].group(0), "if")
+            if c[2] is not None:
+                raise OutOfGrammar("%s has an else branch" % blk)
+            accounted(c[1], result_block, blk)
+    except strict.Unaccounted as ex:
+        raise OutOfGrammar(str(ex))
+    return r
+
+
 def gen_alm(repo, D, Z, tables):
     src = strip_comments(open(os.path.join(repo, ALM), encoding="utf-8").read())
     i0 = src.find("constexpr auto NaN")
@@ -500,6 +570,7 @@ def gen_alm(repo, D, Z, tables):
     D.append(("g_next_tol", "(P : alm_params (T:=T)) (ε : T) : T", ex(flat(one(r"[;}]\s*ε\s*=\s*([^;]+);", main, "ε update")), {"ε": ("T", "ε")}, "ε update", "T"), "ε = <this>;"))
     # ---- loop head
     loop, _ = body_after(main, r"for\s*\(\s*unsigned\s+i\s*=\s*0\s*;\s*i\s*<\s*params\.max_iter\s*;\s*\+\+i\s*\)\s*\{", "outer loop header for (unsigned i = 0; i < params.max_iter; ++i)")
+    account_loop(loop)
     mm = re.match(r"\s*p\.eval_proj_multipliers\(\s*y\s*,\s*([^;]*)\);", loop)
     if not mm:
         raise OutOfGrammar("outer loop does not start with p.eval_proj_multipliers(y, ...): %r" % flat(loop)[:80])
@@ -691,7 +762,20 @@ def gen_acc(repo):
                 raise OutOfGrammar("%s accumulator: statement %r" % (key, st))
             table.append((m.group(1), k))
         sb, _ = body_after(src, r"struct\s+%s\s*\{" % sname, "struct %s" % sname)
-        fields = re.findall(r"^\s*(?:unsigned|real_t|std::chrono::nanoseconds|SolverStatus)\s+(\w+)\s*(?:=[^;]*|\{\})?;", sb, flags=re.M)
+        # consume-everything: every member declaration of the struct is a field of one of these forms (or the config macro)
+        fields = []
+        try:
+            members = strict.split_statements(sb)
+        except strict.Unaccounted as ex:
+            raise OutOfGrammar("struct %s: %s" % (sname, ex))
+        if not members or not re.fullmatch(strict.lit("USING_ALPAQA_CONFIG(Conf);"), members[0]):
+            raise OutOfGrammar("struct %s does not start with USING_ALPAQA_CONFIG(Conf);" % sname)
+        for st in members[1:]:
+            m = re.fullmatch(r"(?:unsigned|real_t)\s+(\w+)\s*=\s*0\s*;|std::chrono::nanoseconds\s+(\w+)\s*\{\s*\}\s*;|"
+                             r"SolverStatus\s+(\w+)\s*=\s*SolverStatus::Busy\s*;|real_t\s+(\w+)\s*=\s*inf<config_t>\s*;", st)
+            if not m:
+                raise OutOfGrammar("struct %s: member %r is not a counter / duration / status field with its usual initialiser" % (sname, st[:80]))
+            fields.append([g for g in m.groups() if g][0])
         if not fields:
             raise OutOfGrammar("struct %s: no fields recognised" % sname)
         out[key] = (table, fields)
@@ -728,7 +812,7 @@ def _write(path, txt):
 def write(repo=None, outdir=None):
     """returns {'AlmGen.v': status, 'StatsAcc.v': status, 'detail': {...}, 'kernels': {name: gallina}, 'acc': {...}}"""
     repo = repo or os.environ.get("VERIF_REPO", "/repo")
-    outdir = outdir or os.path.join(VERIF, "coq", "gen")
+    outdir = outdir or (os.environ.get("VERIF_GEN_OUT") or os.path.join(VERIF, "coq", "gen"))
     res = {"detail": {}}
     # the two source files are translated independently: a region that left the grammar falls back to ITS reference kernels only
     HELPER_KERNELS = ("g_upw_skip", "g_upw_single", "g_single_cond", "g_single_new", "g_comp_cond", "g_comp_new",
